@@ -171,7 +171,8 @@ impl Notify {
         // Notify all waiters, including those not yet enabled
         let waiters = std::mem::take(&mut state.waiters);
         trace!("notify_waiters for {:p} notifying waiters {:?}", self, waiters);
-        state.pending = false;
+        // Note: a permit stored earlier by `notify_one` is left alone. `notify_waiters` stores no
+        // permit of its own, but it must not throw an already stored one away either.
         drop(state);
         // Since we have removed all the waiters, we need to clear all the
         // flags first, before waking any of them.  This is because sending
